@@ -23,6 +23,10 @@ pub const NATIVE_DENOM: &str = "uwasm";
 /// first trader's position key if keys are built by plain concatenation (adversarial naming, used by alias ops)
 /// two 44-byte addresses sharing their first 43 bytes
 pub const LONG_NAMES: [&str; 2] = ["margined1qvw5e8k3tz0hd7xkw2l9c4nmy6sfjup3ra0", "margined1qvw5e8k3tz0hd7xkw2l9c4nmy6sfjup3ra1"];
+pub const FOREIGN_DENOM: &str = "ufoo";
+/// outside addresses a vAMM owner may (mistakenly) point the vAMM's insurance-fund / margin-engine settings at
+pub const RETIRED_FUND: &str = "retired-fund";
+pub const ENGINE_TYPO: &str = "engine-typo";
 pub const TRADERS: [&str; 6] = ["alice", "bob", "carol", "whale", "dave", "0alice"];
 pub const N_TRADERS: usize = 6;
 pub const ALIAS_ATTACKER: usize = 0;
@@ -135,6 +139,7 @@ pub struct Snapshot {
     pub block: BlockInfo,
     pub paused: bool,
     pub oracle_model: Vec<u128>,
+    pub fee_pool: Addr,
 }
 
 #[derive(Clone, Debug)]
@@ -161,7 +166,11 @@ pub struct World {
     pub token: Option<Addr>,
     pub engine: Addr,
     pub fund: Addr,
+    /// the fee pool the engine is currently configured with (tracked from successful UpdateConfig transactions)
     pub fee_pool: Addr,
+    /// both deployed fee pools (the second one is only used after the engine owner switches to it)
+    pub pools: [Addr; 2],
+    pub idx_pool2: usize,
     pub vamms: Vec<Addr>,
     pub oracles: Vec<Addr>,
     pub keys: Vec<String>,
@@ -311,7 +320,7 @@ impl World {
                         .init_balance(
                             storage,
                             &Addr::unchecked("genesis"),
-                            vec![Coin::new(fund_balance, NATIVE_DENOM)],
+                            vec![Coin::new(fund_balance, NATIVE_DENOM), Coin::new(1_000_000_000_000u128, FOREIGN_DENOM)],
                         )
                         .unwrap();
                 }
@@ -444,6 +453,12 @@ impl World {
                     )
                     .map_err(e)?;
                 }
+            }
+        }
+        if token.is_none() {
+            // coins of another denomination sit on the protocol's accounts (anyone can send them): they are not collateral
+            for (to, amt) in [(&engine, 123_456_789u128), (&fund_addr, 1u128), (&fee_pool, 40_000_000u128)] {
+                app.send_tokens(Addr::unchecked("genesis"), to.clone(), &[Coin::new(amt, FOREIGN_DENOM)]).map_err(e)?;
             }
         }
         let mut vamms = vec![];
@@ -622,6 +637,10 @@ impl World {
             )
             .map_err(e)?;
         }
+        // a second fee pool the engine owner may switch to (deployed last: no earlier address changes)
+        let fee_pool2 = app
+            .instantiate_contract(fee_code, Addr::unchecked(&owner), &fp::InstantiateMsg {}, &[], "fee_pool2", None)
+            .map_err(e)?;
         let mut accounts = users.clone();
         accounts.push(engine.to_string());
         accounts.push(fund_addr.to_string());
@@ -632,7 +651,11 @@ impl World {
         for or in &oracles {
             accounts.push(or.to_string());
         }
-        let mut contract_set: Vec<String> = vec![engine.to_string(), fund_addr.to_string(), fee_pool.to_string()];
+        accounts.push(fee_pool2.to_string());
+        let idx_pool2 = accounts.len() - 1;
+        accounts.push(RETIRED_FUND.to_string());
+        accounts.push(ENGINE_TYPO.to_string());
+        let mut contract_set: Vec<String> = vec![engine.to_string(), fund_addr.to_string(), fee_pool.to_string(), fee_pool2.to_string()];
         contract_set.extend(vamms.iter().map(|a| a.to_string()));
         contract_set.extend(oracles.iter().map(|a| a.to_string()));
         if let Some(t) = &token {
@@ -651,6 +674,8 @@ impl World {
             token,
             engine,
             fund: fund_addr,
+            pools: [fee_pool.clone(), fee_pool2],
+            idx_pool2,
             fee_pool,
             vamms,
             oracles,
@@ -675,7 +700,11 @@ impl World {
         N_TRADERS + 5
     }
     pub fn idx_fee_pool(&self) -> usize {
-        N_TRADERS + 6
+        if self.fee_pool == self.pools[0] {
+            N_TRADERS + 6
+        } else {
+            self.idx_pool2
+        }
     }
     pub fn idx_liquidator(&self) -> usize {
         N_TRADERS
@@ -706,6 +735,7 @@ impl World {
             block: self.app.block_info(),
             paused: self.paused,
             oracle_model: self.oracle_model.clone(),
+            fee_pool: self.fee_pool.clone(),
         }
     }
 
@@ -722,6 +752,7 @@ impl World {
         self.app.set_block(snap.block.clone());
         self.paused = snap.paused;
         self.oracle_model = snap.oracle_model.clone();
+        self.fee_pool = snap.fee_pool.clone();
     }
 
     pub fn set_time(&mut self, height: u64, secs: u64) {
